@@ -95,4 +95,28 @@ pub(crate) mod kani_verif {
     h!(c08_ots_public_n16_w8, check_public_key::<16, 320>(8), 330);
     // @h name=c08_ots_public_n16_w4 props=C08,C07,C01 tier=thorough kind=proved cfg=default timeout=3000 funcs=lm_ots::keygen::generate_public_key contract="same, n=16, w=4 (p=35)"
     h!(c08_ots_public_n16_w4, check_public_key::<16, 600>(4), 610);
+
+    /// contract of build.rs: the generated capacities cover every parameter set the configured limits allow
+    fn check_build_constants() {
+        use crate::constants::*;
+        let mut min_w = 8usize;
+        let mut max_h = 0usize;
+        let mut i = 0;
+        while i < MAX_ALLOWED_HSS_LEVELS {
+            if WINTERNITZ_PARAMETERS[i] < min_w { min_w = WINTERNITZ_PARAMETERS[i]; }
+            if TREE_HEIGHTS[i] > max_h { max_h = TREE_HEIGHTS[i]; }
+            i += 1;
+        }
+        assert!(MIN_WINTERNITZ_PARAMETER == min_w, "MIN_WINTERNITZ_PARAMETER is the smallest configured Winternitz parameter");
+        assert!(MAX_TREE_HEIGHT == max_h, "MAX_TREE_HEIGHT is the largest configured height");
+        assert!(MAX_NUM_WINTERNITZ_CHAINS == get_num_winternitz_chains(min_w, 32), "chain capacity covers the smallest allowed w at n = 32");
+        assert!(MAX_ALLOWED_HSS_LEVELS >= 1 && MAX_ALLOWED_HSS_LEVELS <= REF_IMPL_MAX_ALLOWED_HSS_LEVELS, "level limit within the key format");
+        kani::cover!(true, "reachable");
+    }
+    // @h name=c14_build_constants_default props=C14 tier=quick kind=proved cfg=default funcs=build.rs contract="generated constants: MIN_WINTERNITZ_PARAMETER = min, MAX_TREE_HEIGHT = max, chain capacity for the smallest w (default build)"
+    h!(c14_build_constants_default, check_build_constants(), 20);
+    // @h name=c14_build_constants_L2small props=C14 tier=quick kind=proved cfg=L2small funcs=build.rs contract="same under limits 2 levels, heights (10,5), W (4,8)"
+    h!(c14_build_constants_L2small, check_build_constants(), 20);
+    // @h name=c14_ots_private_L2small_w4 props=C14 tier=quick kind=proved cfg=L2smallbig timeout=2400 funcs=lm_ots::keygen::generate_private_key contract="mixed-limit build: a level that uses the smallest allowed Winternitz parameter (w=4, p=35 at n=16) fits the generated capacities (no capacity panic) and derives x_i as in the default build"
+    h!(c14_ots_private_L2small_w4, check_private_key::<16>(4), 70);
 }
